@@ -66,12 +66,13 @@ def get_inherited(t: Type) -> Type:
 
 def _get_all_inherited(t: Type) -> List[Type]:
     "All the base classes of `t`, given the types `t` gives them (see `get_inherited`)"
-    if hasattr(t, "__orig_bases__"):
-        base_classes = getattr(t, "__orig_bases__", None)
-    elif hasattr(t, "__origin__") and hasattr(t.__origin__, "__orig_bases__"):
-        base_classes = t.__origin__.__orig_bases__
-    else:
+    cls = t if isinstance(t, type) else getattr(t, "__origin__", None)
+    if not hasattr(cls, "__orig_bases__"):
         return []
+    # `__orig_bases__` is inherited like any attribute: a class written with plain base classes
+    # only (`class Both(JetBox, TrackIter)`) shows the one of the first of them that has it.
+    # Its own base classes are what it says itself.
+    base_classes = vars(cls).get("__orig_bases__", getattr(cls, "__bases__", ()))
 
     # `Generic[T]` only declares the type variables - there is no type to inherit from it
     # (and it can't be re-parameterized with actual types).
